@@ -113,8 +113,13 @@ type Sched struct {
 	byGoid sync.Map
 	Trace  []Event
 	Names  []string
-	Block  time.Duration // how long to wait for a released process before calling it blocked
-	mu     sync.Mutex
+	// Block: how long to wait for a released process before calling it blocked. Nothing in csvq blocks between two
+	// gates (waiting for a lock is a retry loop through the gate wait.retry), so this is a hang detector only: a short
+	// value lets the scheduler go on while the process is still running on a loaded machine, and the recorded order
+	// of events is then no longer the order of execution (it produced observation violations that did not reproduce).
+	Block   time.Duration
+	Stalled bool // a released process did not arrive within Block
+	mu      sync.Mutex
 }
 
 var hookMu sync.Mutex // one scheduler at a time owns file.VerifHook
@@ -162,7 +167,7 @@ func baseOf(path string) string {
 // and starts every process up to its first gate.
 func New(dir string, files []string, exists map[string]bool, progs map[string][]Op) *Sched {
 	hookMu.Lock()
-	s := &Sched{Dir: dir, Files: files, procs: map[string]*proc{}, Block: 60 * time.Millisecond}
+	s := &Sched{Dir: dir, Files: files, procs: map[string]*proc{}, Block: 20 * time.Second}
 	for _, f := range files {
 		if exists[f] {
 			_ = os.WriteFile(filepath.Join(dir, f+".csv"), []byte("n\n0\n"), 0644)
@@ -357,6 +362,9 @@ func (s *Sched) awaitT(p *proc, a string, d time.Duration, record bool) (Event, 
 		select {
 		case ev = <-p.arrive:
 		case <-t:
+			if d > 0 {
+				s.Stalled = true
+			}
 			return Event{P: p.name, Pt: "blocked"}, false
 		}
 	}
